@@ -288,6 +288,8 @@ fn exec_random(t: &mut Tape, st: &mut Stats) -> Result<(), String> {
     let start = gen_start(t);
     let nh = t.range(1, 4);
     let mut hops = vec![];
+    // the generator follows the chain with the reference model so that it can aim at the current URI itself
+    let mut cur_model: Option<HttpTarget> = HttpTarget::from_parts(&parse(&start));
     for _ in 0..nh {
         let status = *t.pick(&[302u16, 301, 303, 307, 308, 300, 305, 399]);
         let nloc = t.weighted(&[8, 3, 2, 1, 1]) + 1;
@@ -296,6 +298,13 @@ fn exec_random(t: &mut Tape, st: &mut Stats) -> Result<(), String> {
             if k + 1 < nloc && t.chance(30) {
                 // an earlier field may be garbage: only the last one counts
                 locations.push(t.pick(&ERROR_LOCATIONS).to_vec());
+            } else if k + 1 == nloc && t.chance(8) && cur_model.is_some() {
+                // the absolute spelling of the URI that was just requested (a redirect to itself)
+                let mut s = cur_model.as_ref().unwrap().to_uri_string();
+                if t.chance(30) {
+                    s.push_str("#frag");
+                }
+                locations.push(s.into_bytes());
             } else {
                 locations.push(gen_location(t).into_bytes());
             }
@@ -307,6 +316,13 @@ fn exec_random(t: &mut Tape, st: &mut Stats) -> Result<(), String> {
             } else {
                 let e = t.pick(&ERROR_LOCATIONS).to_vec();
                 locations.push(e);
+            }
+        }
+        if !must_err {
+            if let (Some(cm), Some(last)) = (&cur_model, locations.last()) {
+                if let Ok(l) = std::str::from_utf8(last) {
+                    cur_model = HttpTarget::from_parts(&resolve(&cm.to_parts(), &parse(l)));
+                }
             }
         }
         hops.push(HopSpec { status, locations, same_host_policy: t.bool(), must_err });
@@ -371,7 +387,7 @@ pub static DEF: PropDef = PropDef {
     id: "C14",
     rule: "random chains of 1..4 redirects from a dot-segment-free http/https start URI; Locations over unreserved characters plus ; = & , : \
 absolute http/https/HTTP with and without default / non-default ports and mixed-case hosts, scheme-relative, path-absolute, \
-path-relative with '.', '..' and empty segments in every position, query-only, empty, optional fragments; 1..5 Location fields per \
+path-relative with '.', '..' and empty segments in every position, query-only, empty, the absolute spelling of the URI just requested (8 %), optional fragments; 1..5 Location fields per \
 response (earlier ones possibly garbage, the last one counts); 6 % of hops carry a must-be-error Location (missing, obs-text / non-UTF-8, \
 unclosed '[', port > 65535 or non-numeric, empty authority). Oracle: Flow<Prepare>::uri() of the followed flow equals the RFC 3986 5.2 \
 reference resolution (model/rfc3986.rs, validated on the RFC 5.4 tables) of the last Location against the URI of the request just made, \
